@@ -420,8 +420,10 @@ from . import gen as G
 MIB = 1024 * 1024
 
 
-def write_variants(rng, tier, lanes=("S", "Aa", "Ta")):
-    """the write variants whose every crash point is explored (C03)"""
+def write_variants(rng, tier, lanes=("S", "Aa", "Ta", "P")):
+    """the write variants whose every crash point is explored (C03); lane P - the blocking API of
+    a build without the mmap feature - runs the variants with a DECLARED size only (where the
+    memory map, or its absence, matters)"""
     q = tier == "quick"
     out = []
     for lane in lanes:
@@ -460,7 +462,7 @@ def write_variants(rng, tier, lanes=("S", "Aa", "Ta")):
         for n in ([MIB + 1] if q else [MIB - 1, MIB, MIB + 1]):
             out.append({"lane": lane, "n": n, "how": "oneshot", "keyed": True})
             out.append({"lane": lane, "n": n, "how": "oneshot", "keyed": False})
-    return out
+    return [v for v in out if v["lane"] != "P" or v.get("declare")]
 
 
 def scenario_for_write(rng, v, idx):
